@@ -6,13 +6,18 @@ import itertools
 
 from common import driver, sx, parse_sx
 
-UNKNOWN = 99
+UNKNOWN = 99          # unknown (not listed) module names
+UNKNOWN2 = 98
+UNKNOWNS = (UNKNOWN, UNKNOWN2)
 
 
 def real_sort(graph):
     from psyclone.parse import ModuleManager
     mm = ModuleManager.get()
     deps = {f"m{m}": {f"m{d}" for d in ds} for m, ds in graph}
+    # one of the unknown names is on the module manager's ignore list (no warning printed
+    # for it; it must be dropped all the same)
+    mm.add_ignore_module(f"m{UNKNOWN2}")
     with contextlib.redirect_stdout(io.StringIO()):
         out = mm.sort_modules(deps)
     return [int(x[1:]) for x in out]
@@ -51,9 +56,9 @@ def clauses(graph, out):
     return None
 
 
-def exhaustive(n):
+def exhaustive(n, unknowns=(UNKNOWN,)):
     mods = list(range(n))
-    cands = mods + [UNKNOWN]
+    cands = mods + list(unknowns)
     subsets = [list(c) for k in range(len(cands) + 1) for c in itertools.combinations(cands, k)]
     for combo in itertools.product(subsets, repeat=n):
         yield [(m, list(ds)) for m, ds in zip(mods, combo)]
@@ -68,8 +73,9 @@ def random_graph(rng):
     g = []
     for m in order:
         ds = [d for d in range(n) if rng.random() < p and (not dag or d < m)]
-        if rng.random() < 0.3:
-            ds.append(UNKNOWN)
+        for u in UNKNOWNS:
+            if rng.random() < 0.3:
+                ds.append(u)
         rng.shuffle(ds)
         g.append((m, ds))
     return g
@@ -79,13 +85,21 @@ def cases(chk):
     nmax = 4 if chk.tier == "thorough" else 3
     for n in range(0, nmax + 1):
         yield from exhaustive(n)
+    # two distinct unknown names (a module may have several unknown dependencies)
+    for n in range(1, (3 if chk.tier == "thorough" else 2) + 1):
+        yield from exhaustive(n, UNKNOWNS)
+    if chk.tier != "thorough":
+        pool = list(exhaustive(3, UNKNOWNS))
+        for g in chk.rng.sample(pool, 3000):
+            yield g
     for _ in range(60000 if chk.tier == "thorough" else 4000):
         yield random_graph(chk.rng)
 
 
 def run(chk):
     chk.cov["rule"] = ("dependency maps: exhaustive over <=3 (thorough: <=4) modules with deps drawn from the modules "
-                       "plus one unknown name, then random maps on 4..9 modules (half of them DAGs); non-trivial = "
+                       "plus one unknown name, exhaustive <=2 (thorough <=3; quick: 3000 sampled of the 32768 on 3) modules with "
+                       "two unknown names one of which is on the ignore list, then random maps on 4..9 modules (half of them DAGs); non-trivial = "
                        "at least 2 modules and at least one known dependency; distinct by canonical JSON")
     chk.cov["exhaustive"] = False
     chk.assumptions += ["dict keys are distinct (Python dict)", "dependency sets are modelled as duplicate-free lists"]
@@ -97,7 +111,7 @@ def run(chk):
         out = real_sort(g)
         mout = parse_sx(mo)
         agreed = (mout == out)
-        nontriv = len(g) >= 2 and any(d != UNKNOWN for _, ds in g for d in ds)
+        nontriv = len(g) >= 2 and any(d not in UNKNOWNS for _, ds in g for d in ds)
         chk.case({"graph": g, "sorted": out}, nontrivial=nontriv, agreed=agreed)
         if acyclic(g):
             n_acyclic += 1
